@@ -49,6 +49,12 @@ def one(ctx: Ctx, cs, pname, over, core=True, max_sets=24):
             cutsets.append(sorted(rng.sample(bars, rng.randint(2, 5))))
     if len(cutsets) > max_sets + min(len(bars), 14) + 1:
         cutsets = cutsets[:1] + rng.sample(cutsets[1:], max_sets + min(len(bars), 14))
+    if len(src_lines) > 500 and len(cutsets) > 4:
+        # a long text: every concat imports prefixes of hundreds of lines - the empty cut, two single cuts and one multiple cut
+        multi = [c for c in cutsets if len(c) >= 2]
+        single = [c for c in cutsets if len(c) == 1]
+        cutsets = [[]] + rng.sample(single, min(2, len(single))) + (rng.sample(multi, 1) if multi else [])
+        ctx.cls('long_text (cut sets thinned)')
     ref_snap = kpx.snapshot(d)
     full = sc.full
     for ci, cuts in enumerate(cutsets):
